@@ -1,12 +1,12 @@
 CONSTANTS
-  K = 2
-  M = 1
+  K = 1
+  M = 3
   Depth = 4
-  Kinds = {"slice","btree"}
+  Kinds = {"slice"}
   Formats = {"pilosa"}
   MaxBatch = 2
   RowSizes = {0}
-  Alphabet = {"Add","Remove","AddN","RemoveN","ImportSet","ImportClear","Optimize","Reencode","Hold"}
+  Alphabet = {"Add","AddN","Remove","Hold","Optimize","Count"}
 INIT Init
 NEXT Next
 INVARIANT TypeOK
